@@ -162,7 +162,6 @@ def build():
                      ('R-expect', r'\.expect\("must exist when has\(\) returns true"\)', '.unwrap()', 'opt'),
                      ('R-instantiate', r'(?<="default-annotationset")\.into\(\)', '.to_string()')],
            requires=[('wf', f'idmap_wf({SETS0}, Some(old(self).dataset_idmap.data@))'),
-                     ('fits', f'{SETS0}.len() < AnnotationDataSetHandle::hmax()'),
                      ('no_merge', '!old(self).config.merge'),
                      ('name_not_temp_form', f'!is_temp_form::<AnnotationDataSet>(old(self).dataset_idmap.resolve_temp_ids, {NAME})')],
            ensures=[
